@@ -429,5 +429,5 @@ def strategy(draw):
 
 PHASES = [
     Phase("farmers", run_case, strategy=strategy,
-          examples={"quick": 1600, "thorough": 16000}),
+          examples={"quick": 1600, "thorough": 60000}),
 ]
